@@ -28,13 +28,13 @@ open UtilModel
 
 inductive Err where
   | nil | canceled | custom (n : Nat)
-deriving DecidableEq, Repr, Inhabited
+deriving DecidableEq, Repr, Inhabited, Hashable
 
 /-- outcome of the wrapped function -/
 inductive Out where
   | ok (v : Nat)
   | err (e : Err)
-deriving DecidableEq, Repr, Inhabited
+deriving DecidableEq, Repr, Inhabited, Hashable
 
 /-- harness discipline: instance `f` returns the value `f+1`, the error `custom (f+1)`, or the
 sentinel `context.Canceled` -/
@@ -44,7 +44,7 @@ def Out.okFor (f : Nat) : Out → Bool
 
 inductive Branch where
   | ctx | res
-deriving DecidableEq, Repr, Inhabited
+deriving DecidableEq, Repr, Inhabited, Hashable
 
 /-- program counter of a caller -/
 inductive CS where
@@ -53,12 +53,12 @@ inductive CS where
   | awaiting (f : Nat)        -- in `prom.Await(ctx)` on the promise of instance `f`
   | retd (v : Nat) (e : Err)  -- about to return
   | done (v : Nat) (e : Err)
-deriving DecidableEq, Repr, Inhabited
+deriving DecidableEq, Repr, Inhabited, Hashable
 
 structure Caller where
   pc : CS := .top
   cx : Bool := false
-deriving DecidableEq, Repr, Inhabited
+deriving DecidableEq, Repr, Inhabited, Hashable
 
 /-- program counter of a function goroutine -/
 inductive FS where
@@ -68,19 +68,19 @@ inductive FS where
   | cleared (e : Err)         -- error path: slot cleared; `ctx.Err()` test pending
   | decided (e : Err)         -- error path: error to publish chosen
   | finished
-deriving DecidableEq, Repr, Inhabited
+deriving DecidableEq, Repr, Inhabited, Hashable
 
 structure Fn where
   init : Nat                            -- the caller whose context the function got
   st : FS := .spawned
   res : Option (Nat × Err) := none      -- the promise: published result
-deriving DecidableEq, Repr, Inhabited
+deriving DecidableEq, Repr, Inhabited, Hashable
 
 structure St where
   slot : Option Nat := none
   fns : List Fn := []
   cs : List Caller := []
-deriving DecidableEq, Repr
+deriving DecidableEq, Repr, Hashable
 
 inductive Obs where
   | inv (t : Nat)                       -- `inv t resolve`
@@ -89,7 +89,7 @@ inductive Obs where
   | cbin (f t : Nat)                    -- `cbin f t`   (function call number f entered, with caller t's context)
   | cbout (f : Nat) (o : Out)           -- `cbout f ok v` / `cbout f err e`
   | quiesce (pending : List Nat)        -- `quiesce t1 t2 …`  (pending callers)
-deriving DecidableEq, Repr
+deriving DecidableEq, Repr, Hashable
 
 inductive Ev where
   | inv (t : Nat)
@@ -104,7 +104,7 @@ inductive Ev where
   | fnCheck (f : Nat)
   | fnPublish (f : Nat)
   | quiesce (pending : List Nat)
-deriving DecidableEq, Repr
+deriving DecidableEq, Repr, Hashable
 
 def Ev.obs : Ev → Option Obs
   | .inv t => some (.inv t)
